@@ -2,7 +2,7 @@
 # Re-evaluates every stored seeded change with the current checks (quick tier),
 # three at a time; prints one line per change and a summary. Exit 1 if any is missed.
 cd /verif
-ls -d seeded/C* | xargs -P 3 -I{} bash -c 'd={}; id=$(basename $d | cut -d- -f1); r=$(./eval_seeded.sh $id $d 2>&1 | tail -1 | awk "{print \$1}"); echo "$r $d"' | sort > /tmp/regress-seeded.out
+ls -d seeded/C* | xargs -P 3 -I{} bash -c 'd={}; id=$(python3 -c "import json,sys;print(json.load(open(sys.argv[1]+\"/meta.json\")).get(\"check\",\"\"))" $d); [ -n "$id" ] || id=$(basename $d | cut -d- -f1); r=$(./eval_seeded.sh $id $d 2>&1 | tail -1 | awk "{print \$1}"); echo "$r $d"' | sort > /tmp/regress-seeded.out
 cat /tmp/regress-seeded.out
 n=$(grep -c "^DETECTED" /tmp/regress-seeded.out); t=$(wc -l < /tmp/regress-seeded.out)
 echo "detected $n of $t"
